@@ -45,6 +45,10 @@ def configs(tier):
             continue
         out.append({"threshold": thr, "window": W, "recovery": R, "class_thresholds": ct,
                     "trip_on": trip})
+    # the clock's reference point makes its readings negative (and they cross zero)
+    for thr, ct in [(2, {}), (3, {}), (3, {"R": 2})]:
+        out.append({"threshold": thr, "window": 2, "recovery": 2, "class_thresholds": ct,
+                    "trip_on": ["T", "U"], "t0": -3})
     # trip_on handed over as a one-shot iterable (generator / map / iter), which set() accepts
     for thr, ct in [(2, {}), (2, {"R": 1}), (1, {})]:
         out.append({"threshold": thr, "window": 4, "recovery": 2, "class_thresholds": ct,
